@@ -102,7 +102,53 @@ fn permutation(n: usize, seed: u64) -> Vec<usize> {
     p
 }
 
+pub struct Case {
+    pub bytes: Vec<u8>,
+    pub hostile: bool,
+    /// the generating model (well-formed cases only)
+    pub model: Option<crate::model::Sprite>,
+    /// a sibling sprite: same pixels, palette colours and structure, but different names everywhere
+    pub sibling: Option<(crate::model::Sprite, Vec<u8>)>,
+}
+
 pub fn build_bytes(t: &mut Tape) -> (Vec<u8>, bool) {
+    let c = build_case(t);
+    (c.bytes, c.hostile)
+}
+
+fn rename(s: &crate::model::Sprite) -> crate::model::Sprite {
+    let mut a = s.clone();
+    for (i, l) in a.layers.iter_mut().enumerate() {
+        l.name = format!("sib-{}-{}", i, l.name.chars().rev().take(8).collect::<String>());
+    }
+    if let Some(p) = &mut a.palette {
+        for (i, e) in p.entries.iter_mut().enumerate() {
+            e.name = match (&e.name, i % 3) {
+                (Some(_), 0) => None,
+                (Some(n), _) => Some(format!("{}'", n.chars().take(6).collect::<String>())),
+                (None, 1) => Some(format!("n{}", i)),
+                (None, _) => None,
+            };
+        }
+    }
+    if let Some(tags) = &mut a.tags {
+        for (i, tg) in tags.iter_mut().enumerate() {
+            tg.name = format!("sibtag{}", i);
+        }
+    }
+    for (i, sl) in a.slices.iter_mut().enumerate() {
+        sl.name = format!("sibslice{}", i);
+    }
+    for ts in a.tilesets.iter_mut() {
+        ts.name = format!("sib{}", ts.name.len());
+    }
+    for e in a.ext_files.iter_mut() {
+        e.name = format!("sib{}", e.name.len());
+    }
+    a
+}
+
+pub fn build_case(t: &mut Tape) -> Case {
     if t.chance(1, 8) {
         // a tilemap layer whose tileset id matches none of >= 2 tilesets (must be rejected; if it is
         // accepted, the binding must at least not depend on hash-map order)
@@ -125,13 +171,13 @@ pub fn build_bytes(t: &mut Tape) -> (Vec<u8>, bool) {
             }
         }
         let plan = build_plan(t);
-        return (encode(&s, &plan).bytes, true);
+        return Case { bytes: encode(&s, &plan).bytes, hostile: true, model: None, sibling: None };
     }
     if t.chance(1, 3) {
         // accepted-corrupted candidates
         let rest: Vec<u32> = (0..600).map(|_| t.raw()).collect();
         let b = super::robust::build_hostile(&rest);
-        (b.bytes, true)
+        Case { bytes: b.bytes, hostile: true, model: None, sibling: None }
     } else {
         let mut s = build_sprite(t, &super::c07::cfg());
         // extreme canvas on one axis (arithmetic near the 16-bit limit), the other axis tiny
@@ -147,13 +193,16 @@ pub fn build_bytes(t: &mut Tape) -> (Vec<u8>, bool) {
             _ => {}
         }
         let plan = build_plan(t);
-        (encode(&s, &plan).bytes, false)
+        let sib = rename(&s);
+        let sib_bytes = encode(&sib, &plan).bytes;
+        Case { bytes: encode(&s, &plan).bytes, hostile: false, model: Some(s), sibling: Some((sib, sib_bytes)) }
     }
 }
 
 pub fn check(tape: &[u32]) -> CheckResult {
     let mut t = Tape::new(tape);
-    let (bytes, hostile) = build_bytes(&mut t);
+    let case = build_case(&mut t);
+    let (bytes, hostile) = (case.bytes.clone(), case.hostile);
     let f = match AsepriteFile::read(&bytes[..]) {
         Ok(f) => f,
         Err(_) if hostile => return Ok(Outcome::new(false, hash_bytes(&bytes)).label("hostile-rejected")),
@@ -228,6 +277,16 @@ pub fn check(tape: &[u32]) -> CheckResult {
     let (o1, o2) = (observe(&f, true), observe(&f2, true));
     if o1 != o2 {
         return Err(Failure::new("reload-differs", format!("two loads of the same bytes differ: {}", super::c07::diff_obs(&o1, &o2))).with(detail(json!(null))));
+    }
+    // a different sprite alive at the same time must not influence this one (and vice versa): load a
+    // sibling with the same colours and structure but different names, then this sprite again
+    if let (Some(m), Some((sm, sb))) = (&case.model, &case.sibling) {
+        let fa = AsepriteFile::read(&sb[..]).map_err(|e| Failure::new("load-error", format!("sibling sprite failed to load: {}", e)))?;
+        super::c01::compare_structure(sm, &fa).map_err(|e| Failure::new(format!("cross-sprite-state:{}", e.signature), format!("a sprite loaded while another sprite (same colours, different names) was alive reports the other's data: {}", e.msg)).with(detail(json!({"sibling_hex": if sb.len() < 8000 { hex(sb) } else { String::new() }}))))?;
+        let fb = AsepriteFile::read(&bytes[..]).map_err(|e| Failure::new("reload-fails", format!("third load failed: {}", e)))?;
+        super::c01::compare_structure(m, &fb).map_err(|e| Failure::new(format!("cross-sprite-state:{}", e.signature), format!("reloading a sprite while a sibling is alive changes what it reports: {}", e.msg)).with(detail(json!({"sibling_hex": if sb.len() < 8000 { hex(sb) } else { String::new() }}))))?;
+        super::c01::compare_structure(m, &f).map_err(|e| Failure::new(format!("cross-sprite-state:{}", e.signature), format!("an already loaded sprite changed after a sibling was loaded: {}", e.msg)).with(detail(json!(null))))?;
+        drop(fa);
     }
     let distinct: std::collections::HashSet<&Call> = calls.iter().collect();
     let has_img = calls.iter().any(|c| matches!(c, Call::FrameImage(_) | Call::CelImage(..) | Call::TilesetImage(_) | Call::Tilemap(..)));
